@@ -20,7 +20,7 @@ pub fn totality_one(bytes: &[u8]) -> Result<bool, (String, String)> {
         Ran::Done(Err(e)) => {
             let e = String::from_utf8_lossy(e.as_bytes()).into_owned();
             let nl = bytes.iter().filter(|&&c| c == b'\n').count() + 1;
-            match check_parse_error_shape(&e, "x.d", nl) {
+            match check_parse_error_shape_x(&e, "x.d", nl, std::str::from_utf8(bytes).is_ok()) {
                 Ok(()) => Ok(false),
                 Err(why) => Err(("diagnostic-shape".into(), format!("depfile {:?}: malformed diagnostic ({}): {:?}", String::from_utf8_lossy(bytes), why, e))),
             }
@@ -283,7 +283,10 @@ impl Check for C15 {
         }
     }
     fn run_replay(&mut self, _part: &str, replay: &Value, _env: &mut Env) -> CaseOut {
-        let text = replay["depfile"].as_str().unwrap_or("").to_string();
+        let text = match replay["raw_bytes"].as_array() {
+            Some(a) => String::from_utf8_lossy(&a.iter().map(|x| x.as_u64().unwrap_or(0) as u8).collect::<Vec<u8>>()).into_owned(),
+            None => replay["depfile"].as_str().unwrap_or("").to_string(),
+        };
         let mut out = CaseOut { evals: 1, ..Default::default() };
         if !survives(|| {
             let _ = parse(text.as_bytes());
